@@ -149,6 +149,27 @@ def sequence_block(tier, rnd, res, field, known_map=None, auto_mask=False, versi
                     for q in seq:
                         lines.append(f'sym id={len(lines)} m={matrix_str(q.matrix)} reqmask={kw.get("mask", "-")}')
                         info.append((content, kw))
+    # encoder.encode_sequence(..., eci=True) — the function behind make_sequence, which has no eci parameter: the ECI header (12 bits)
+    # and the Structured Append header (20 bits) both count when the version is chosen (wave 10, C13f-1 / C13f-2)
+    for v in ((1, 2, 3, 4) if tier == 'quick' else range(1, 15)):
+        for e in (0, 1, 2, 3):
+            k = max_chars(v, e, 4, 32)
+            if k < 2:
+                continue
+            for n in (2, 3):
+                for total in (n * k, n * k + 1, n * k + n):
+                    content = ''.join(rnd.choice('abcdefghijklmnopqrstuvwxyz') for _ in range(total))
+                    kw = dict(symbol_count=n, error=LEVEL_NAME[e], boost_error=rnd.random() < 0.3, encoding='utf-8', eci=True)
+                    if not auto_mask:
+                        kw['mask'] = rnd.randrange(8)
+                    try:
+                        seq = segno.QRCodeSequence(map(segno.QRCode, segno.encoder.encode_sequence(content, **kw)))
+                    except ValueError:
+                        continue
+                    res.evaluations += 1
+                    for q in seq:
+                        lines.append(f'sym id={len(lines)} m={matrix_str(q.matrix)} reqmask={kw.get("mask", "-")}')
+                        info.append((content, dict(kw, api='encoder.encode_sequence')))
     if auto_mask:
         # periodic contents: every symbol of the sequence carries the SAME segment and differs only in its Structured Append
         # header (position) — the mask must still be chosen per symbol (wave 10, C06f-1: a mask memo keyed by the segments)
@@ -173,8 +194,8 @@ def sequence_block(tier, rnd, res, field, known_map=None, auto_mask=False, versi
         res.nontrivial.add(('sequence', kv.get('v'), kv.get('lvl'), kv.get('segs'), kv.get('end')))
         if verdict not in ('ok', '-'):
             kid = known_map(field, verdict, None) if known_map else None
-            res.violations.append(dict(property_field=field, verdict=verdict, call=f'segno.make_sequence({content!r}, **{kw!r})',
-                                       replay=dict(content=content if not isinstance(content, bytes) else {'bytes': content.hex()}, kw=kw, api='make_sequence'),
+            res.violations.append(dict(property_field=field, verdict=verdict, call=(f'segno.encoder.encode_sequence({content!r}, **{ {k: w for k, w in kw.items() if k != "api"}!r})' if kw.get('api') else f'segno.make_sequence({content!r}, **{kw!r})'),
+                                       replay=dict(content=content if not isinstance(content, bytes) else {'bytes': content.hex()}, kw=kw, api=kw.get('api', 'make_sequence')),
                                        judge={k2: kv[k2] for k2 in kv if k2 not in ('cw', 'bytes')}, known_id=kid))
     res.count('sequence-block:symbols', len(lines))
 
